@@ -3,7 +3,8 @@
 BASELINE_OFF = "./baseline_off.sh"
 HOOK_COMMITS = []
 NOTES = ("All checks are runtime monitors: the real tlx code from /repo's working tree is compiled "
-         "into per-property harnesses (plain / ASan+UBSan / TSan builds) and driven with generated, "
+         "into per-property harnesses (plain / ASan+UBSan / TSan builds, a -DNDEBUG build and a C++17 "
+         "ASan build) and driven with generated, "
          "hostile workloads while reference models, invariant walkers, lifetime ledgers and the "
          "sanitizers watch. ./check <id> --tier quick|thorough; VERIF_SEED selects the PRNG seed. "
          "known_findings.txt lists recorded and repaired defects. See DESIGN.md.")
